@@ -59,7 +59,9 @@ Inductive mut :=
 | MTrunc (k : N)                                   (* keep the first k bytes *)
 | MZero (k n : N)                                  (* first k bytes, then n zero bytes *)
 | MTail (k : N) (garbage : bytes) (recs : list wrec)   (* first k bytes, garbage, then intact records *)
-| MXor (p : N) (masks : bytes).                    (* bytes p.. xor-ed with non-zero masks *)
+| MXor (p : N) (masks : bytes)                     (* bytes p.. xor-ed with non-zero masks *)
+| MCrash (i : nat) (k : N).                        (* power loss after op number i returned: k bytes of the file survive
+                                                      (k between the fsync'ed and the written length observed then) *)
 
 Inductive expect :=
 | ESilent (rs : list wrec)      (* opens without error and shows exactly the recovery of rs *)
@@ -72,6 +74,7 @@ Definition expected (rs : list wrec) (m : mut) : expect :=
   match m with
   | MTrunc k => ESilent (fit_prefix rs k)
   | MZero k _ => ESilent (fit_prefix rs k)
+  | MCrash _ k => ESilent (fit_prefix rs k)
   | MTail k g recs =>
     if match g with [] => is_boundary rs k | _ => false end then ESilent (fit_prefix rs k ++ recs)
     else if root_then_another recs then EDataLoss
